@@ -46,6 +46,32 @@
 (*                           also violates ImplOrder)                      *)
 (*   ScanStopsAtLicense = TRUE  the scan stops at the first paragraph that *)
 (*                           is not a Files paragraph                      *)
+(*   InsertByValue = TRUE    the last Files paragraph is located by VALUE  *)
+(*                           (list.index with a value-based __eq__ of the  *)
+(*                           paragraph wrappers): the first paragraph      *)
+(*                           whose content equals that of the last Files   *)
+(*                           paragraph gets the new one behind it (seeded  *)
+(*                           change C16-seedK; also violates ImplOrder)    *)
+(*                                                                         *)
+(* Content.  oth[k] = the content of paragraph k apart from its Files      *)
+(* field (Copyright, License, further fields) as a class: 0 = content no   *)
+(* other paragraph has, m > 0 = the content every paragraph with mark m    *)
+(* has.  Paragraphs j # k are CONTENT-EQUAL (copy-and-paste duplicates)    *)
+(* iff oth[j] = oth[k] > 0 and doc[j] = doc[k] NOW.  Any assignment of     *)
+(* marks is an initial state, AddFiles adds a paragraph of any mark (also  *)
+(* one equal to a paragraph of the document), Touch(k, m) edits the other  *)
+(* fields of paragraph k.  At the reference level content is irrelevant:   *)
+(* a lookup returns an IDENTITY, and two content-equal paragraphs are      *)
+(* still two paragraphs.                                                   *)
+(*                                                                         *)
+(* Faults of caller-supplied objects (notes/SIZE_STRESS.md part 5).        *)
+(* Fault(f): a call whose caller-supplied argument fails part-way -- the   *)
+(* dump of the document parsed again from an iterator / file object that   *)
+(* raises or ends early ("parse"), c.dump(fd) with an fd whose write()     *)
+(* raises or writes short ("dump"), p.files = an iterable that raises      *)
+(* after some patterns ("setfiles"), globs_to_re(such an iterable)         *)
+(* ("translate") -- changes NOTHING: document, layout and contents are as  *)
+(* before, and the history goes on with ordinary steps.                    *)
 (* The per-paragraph machinery behind RawSet (raw text / converted value / *)
 (* compiled pattern) is modelled in GlobCache.tla.                         *)
 (***************************************************************************)
@@ -57,14 +83,18 @@ CONSTANTS FPool,              \* pattern lists a paragraph's Files field takes
           MaxLic,             \* bound on stand-alone License paragraphs
           LookupMemo,         \* FALSE
           FilesEndCounter,    \* FALSE
-          ScanStopsAtLicense  \* FALSE
+          ScanStopsAtLicense, \* FALSE
+          InsertByValue,      \* FALSE
+          Marks,              \* content classes of the fields other than Files: 0 = unique, m > 0 = shared
+          Faults              \* kinds of calls with a faulting caller-supplied argument
 
 VARIABLES lay,          \* layout of the document (see above)
+          oth,          \* oth[k] = content class of paragraph k apart from Files (see above)
           fend,         \* FilesEndCounter only: the cached insert position; else 0
           memo,         \* name -> remembered paragraph (0 = none); unused unless LookupMemo
           res           \* result of the last call: identity, 0 = None, -1 = format error, -9 otherwise
 
-fvars == <<doc, n, lay, fend, memo, res>>
+fvars == <<doc, n, lay, oth, fend, memo, res>>
 
 NoMemo == [nm \in FNames |-> 0]
 RECURSIVE Count(_, _, _)
@@ -80,20 +110,31 @@ Shapes == UNION {[1..m -> {0, 1}] : m \in 0..(MaxFiles + MaxLic)}
 InitLays == {Number(s) : s \in {t \in Shapes : NFiles(t) <= MaxFiles /\ NLic(t) <= MaxLic}}
 
 Edge(op, args) == (Emit # "none") =>
-    PrintT(<<"EDGE", ToJson([from |-> [d |-> doc, lay |-> lay], op |-> op, args |-> args, res |-> res',
+    PrintT(<<"EDGE", ToJson([from |-> [d |-> doc, lay |-> lay, oth |-> oth], op |-> op, args |-> args, res |-> res',
                              alt |-> IF op = "find" THEN LenientFind(doc, args[1]) ELSE 0,
-                             to |-> [d |-> doc', lay |-> lay']])>>)
+                             to |-> [d |-> doc', lay |-> lay', oth |-> oth']])>>)
 
 FInit == /\ lay \in InitLays
          /\ doc \in [1..NFiles(lay) -> FPool]
+         /\ oth \in [1..NFiles(lay) -> Marks]
          /\ fend = (IF FilesEndCounter THEN NFiles(lay) ELSE 0)
          /\ n = <<>> /\ memo = NoMemo /\ res = -9
 
-SetFiles(k, ps) == /\ doc' = [doc EXCEPT ![k] = ps] /\ res' = -9 /\ UNCHANGED <<n, lay, fend, memo>>
+SetFiles(k, ps) == /\ doc' = [doc EXCEPT ![k] = ps] /\ res' = -9 /\ UNCHANGED <<n, lay, oth, fend, memo>>
                    /\ Edge("setfiles", <<k, ps>>)
 \* at this level the same step: the paragraph holds ps now (GlobCache.tla has the machinery in between)
-RawSet(k, ps)   == /\ doc' = [doc EXCEPT ![k] = ps] /\ res' = -9 /\ UNCHANGED <<n, lay, fend, memo>>
+RawSet(k, ps)   == /\ doc' = [doc EXCEPT ![k] = ps] /\ res' = -9 /\ UNCHANGED <<n, lay, oth, fend, memo>>
                    /\ Edge("rawset", <<k, ps>>)
+\* the other fields of paragraph k edited: its content class becomes m
+Touch(k, m)     == /\ oth[k] # m
+                   /\ oth' = [oth EXCEPT ![k] = m] /\ res' = -9 /\ UNCHANGED <<doc, n, lay, fend, memo>>
+                   /\ Edge("touch", <<k, m>>)
+\* a call whose caller-supplied argument fails part-way: nothing changes
+Fault(f)        == /\ res' = -9 /\ UNCHANGED <<doc, n, lay, oth, fend, memo>>
+                   /\ Edge("fault", <<f>>)
+
+\* copy-and-paste duplicates: the same Files value and the same shared content
+ContentEq(j, k) == j = k \/ (oth[j] # 0 /\ oth[j] = oth[k] /\ doc[j] = doc[k])
 
 \* last_i of add_files_paragraph (1-based; 0 = no Files paragraph): insert behind it
 RECURSIVE Scan(_, _, _)
@@ -101,22 +142,29 @@ Scan(s, i, last) == IF i > Len(s) THEN last
                     ELSE IF s[i] # 0 THEN Scan(s, i + 1, i)
                     ELSE IF ScanStopsAtLicense THEN last
                     ELSE Scan(s, i + 1, last)
-InsertPos == IF FilesEndCounter THEN fend ELSE Scan(lay, 1, 0)
+\* InsertByValue: list.index(last Files paragraph) with value equality = the FIRST content-equal paragraph
+RECURSIVE FirstEq(_, _, _)
+FirstEq(s, i, k) == IF s[i] # 0 /\ ContentEq(s[i], k) THEN i ELSE FirstEq(s, i + 1, k)
+InsertPos == IF FilesEndCounter THEN fend
+             ELSE LET last == Scan(lay, 1, 0)
+                  IN  IF InsertByValue /\ last # 0 THEN FirstEq(lay, 1, lay[last]) ELSE last
 
-AddFiles(ps) == /\ Len(doc) < MaxFiles
+AddFiles(ps, m) ==
+                /\ Len(doc) < MaxFiles
                 /\ doc' = Append(doc, ps)
+                /\ oth' = Append(oth, m)
                 /\ lay' = SubSeq(lay, 1, InsertPos) \o <<Len(doc) + 1>> \o SubSeq(lay, InsertPos + 1, Len(lay))
                 /\ fend' = (IF FilesEndCounter THEN fend + 1 ELSE fend)
                 /\ res' = -9 /\ UNCHANGED <<n, memo>>
-                /\ Edge("addfiles", <<ps>>)
+                /\ Edge("addfiles", <<ps, m>>)
 
 AddLicense == /\ NLic(lay) < MaxLic
-              /\ lay' = Append(lay, 0) /\ res' = -9 /\ UNCHANGED <<doc, n, fend, memo>>
+              /\ lay' = Append(lay, 0) /\ res' = -9 /\ UNCHANGED <<doc, n, oth, fend, memo>>
               /\ Edge("addlicense", <<>>)
 
 \* dump and parse again: a new Copyright object over the same paragraphs in the same order
 Reparse == /\ fend' = (IF FilesEndCounter THEN NFiles(lay) ELSE fend)
-           /\ memo' = NoMemo /\ res' = -9 /\ UNCHANGED <<doc, n, lay>>
+           /\ memo' = NoMemo /\ res' = -9 /\ UNCHANGED <<doc, n, lay, oth>>
            /\ Edge("reparse", <<>>)
 
 \* the loop of find_files_paragraph over all_files_paragraphs(), identities instead of positions
@@ -125,7 +173,7 @@ ImplFindLay(d, s, nm) == LET ord == FilesOf(s)
                          IN  IF r > 0 THEN ord[r] ELSE r
 
 Find(nm) ==
-   /\ n' = nm /\ UNCHANGED <<doc, lay, fend>>
+   /\ n' = nm /\ UNCHANGED <<doc, lay, oth, fend>>
    /\ IF LookupMemo /\ memo[nm] # 0 /\ ImplMatches(doc[memo[nm]], nm) = "match"
       THEN res' = memo[nm] /\ UNCHANGED memo
       ELSE /\ res' = ImplFindLay(doc, lay, nm)
@@ -133,11 +181,13 @@ Find(nm) ==
    /\ Edge("find", <<nm>>)
 
 FNext == \/ \E k \in 1..Len(doc), ps \in FPool : SetFiles(k, ps) \/ RawSet(k, ps)
-         \/ \E ps \in FPool : AddFiles(ps)
+         \/ \E k \in 1..Len(doc), m \in Marks : Touch(k, m)
+         \/ \E ps \in FPool, m \in Marks : AddFiles(ps, m)
+         \/ \E f \in Faults : Fault(f)
          \/ AddLicense \/ Reparse
          \/ \E nm \in FNames : Find(nm)
 FSpec == FInit /\ [][FNext]_fvars
-FView == <<doc, lay, fend, memo>>
+FView == <<doc, lay, oth, fend, memo>>
 
 FindIsLast == [][\A nm \in FNames : Find(nm) => res' = RefFind(doc, nm)]_fvars
 \* the Files paragraphs stand in the order of their identities, whatever License paragraphs are in between
@@ -147,5 +197,7 @@ ImplOrder  == FilesOf(lay) = [i \in 1..Len(doc) |-> i]
 MCFPool  == { << <<97>> >>, << <<42>> >>, << <<98>>, <<97, 42>> >>, << <<98, 63>> >> }
 MCFPoolS == { << <<42>> >>, << <<98>>, <<97, 42>> >>, << <<98, 63>> >> }                \* quick
 MCFPoolE == MCFPool \cup { << <<92, 97>> >> }                \* with an ill-formed list (thorough)
+MCFPoolQ == { << <<42>> >>, << <<98>>, <<97, 42>> >> }                                  \* MC_GlobFind_eq.cfg
+MCFaults == { "parse", "dump", "setfiles", "translate" }
 MCFNames == { <<97>>, <<98>>, <<97, 98>>, <<98, 10>> }
 =============================================================================
